@@ -321,15 +321,16 @@ Definition offset_size (d : Z) : Z :=
   if (-128 <=? d) && (d <=? 127) then 1
   else if (-32768 <=? d) && (d <=? 32767) then 2 else 4.
 
+(* the form is chosen from the rel8 displacement rel-2 (fix in /repo: it used to be chosen from rel) *)
 Definition gen_jmp (m : mode) (rel : Z) : list byte :=
-  match offset_size rel with
+  match offset_size (rel - 2) with
   | 1 => [235; (rel - 2) mod 256]
   | 2 => 233 :: le 2 (rel - 3)
   | _ => (match m with M16 => [102] | M32 => [] end) ++ 233 :: le 4 (rel - 5)
   end.
 
 Definition gen_jcc (opc : Z) (rel : Z) : list byte :=
-  match offset_size rel with
+  match offset_size (rel - 2) with
   | 1 => [opc; (rel - 2) mod 256]
   | 2 => 15 :: (opc + 16) mod 256 :: le 2 (rel - 4)
   | _ => 15 :: (opc + 16) mod 256 :: le 4 (rel - 6)
